@@ -10,6 +10,7 @@ From Dimod Require Gen.Gen_CppVartype Proofs.CppVartypeFacts Gen.Gen_SSetVartype
 From Dimod Require Gen.Gen_IsingQubo Model.IsingQuboGen Proofs.IsingQuboGenFacts Model.FlipMarks Proofs.FlipMarksFacts.
 From Dimod Require Gen.Gen_HPolyPy Proofs.HPolyPyGenFacts.
 From Dimod Require Gen.Gen_VartypeLoops Model.VartypeLoopsGen Proofs.VartypeLoopsFacts Model.VartypeLoopsSub Proofs.Round4Corners.
+From Dimod Require Model.ChkC02 Proofs.ViewEnFacts.
 Import ListNotations.
 Open Scope Qc_scope.
 
@@ -894,3 +895,13 @@ Theorem C02_cqm_spin_to_binary_over_objective_only_refuted :
     VartypeOps.mc_activity k' s <> VartypeOps.mc_activity k (fun v => two * s v - 1).
 Proof. exact Round4Corners.cqm_stb_over_objective_only_refuted. Qed.
 Print Assumptions C02_cqm_spin_to_binary_over_objective_only_refuted.
+
+(* energies THROUGH a live view (round 5): a passing ViewEn case of the check says the energies the view returned are
+   those of the converted model at the rows it was given (any sample dtype: int, float, bool, unsigned) *)
+Theorem C02_view_energies_check_sound :
+  forall (d : ChkC02.dir) (vars : list label) (base : obs) (samples : list (list (label * Qc))) (seen : list Qc),
+  NoDup vars ->
+  ChkC02.check (ChkC02.ViewEn d vars base samples seen) = true ->
+  seen = map (fun s => energy (ChkC02.convert d vars (obs_poly base)) (sample_of_list s)) samples.
+Proof. exact ViewEnFacts.view_energies_check_sound. Qed.
+Print Assumptions C02_view_energies_check_sound.
